@@ -49,7 +49,22 @@ def entry(i):
 ENTRIES = [entry(i) for i in range(len(UNIVERSE))]
 
 
+def arc_mib(v):
+    """A little MIB around a subtree whose root ends in sub-identifier v (for the arc-width slice)."""
+    iv = values.representative("int")
+    ov = values.representative("octets")
+    ents = [(UNIVERSE[0], iv.tlv, iv.py), (R + (1, v, 1), iv.tlv, iv.py), (R + (1, v, 2, 0), ov.tlv, ov.py), (R + (1, v, 4294967295), iv.tlv, iv.py)]
+    if v > 0:
+        ents.append((R + (1, v - 1), ov.tlv, ov.py))
+    if v < 4294967295:
+        ents.append((R + (1, v + 1), ov.tlv, ov.py))
+    ents.append((UNIVERSE[-1], iv.tlv, iv.py))
+    return Mib(sorted(ents))
+
+
 def mib_for(mask, idx):
+    if isinstance(idx, dict):
+        return arc_mib(idx["arc"])
     return Mib([ENTRIES[i] for b, i in enumerate(idx) if mask >> b & 1])
 
 
@@ -80,7 +95,13 @@ class Tracker:
         self.requests = []
 
     def __call__(self, data, idx=None):
-        req = drivers.open_request(self.cfg, data)
+        # lenient parse: whether the request is canonical is C03's / C08's subject; the agent must keep answering
+        try:
+            req = drivers.open_request(self.cfg, data, strict=False, check_mac=False)
+        except (rb.StrictError, drivers.V3Error, ValueError):
+            return []
+        if req.request_id is None or not req.oids:
+            return []
         if self.ended:
             self.after_end += 1
         self.requests.append((req.pdu_tag, req.oids[0] if req.oids else None, req.b))
@@ -206,10 +227,18 @@ def run_case_async(case, res):
     if errs:
         res["machinery"].append("agent errors: %s" % errs[:2])
     if o.kind != "ok":
+        if isinstance(o.exc, TooManyViolations):
+            raise o.exc
         res["machinery"].append("async driver failed: %r" % (o.brief(),))
 
 
+class TooManyViolations(Exception):
+    pass
+
+
 def judge(res, case, driver, cfg, mask, base, method, mr, cap, exp, out, tr):
+    if res["counters"].get("violating_walks", 0) > 60:
+        raise TooManyViolations()
     res.count("walks")
     res.count("requests", len(tr.requests))
     if exp:
@@ -225,6 +254,7 @@ def judge(res, case, driver, cfg, mask, base, method, mr, cap, exp, out, tr):
     probs += check_requests(tr, base, method, cfg.version, mr, got, SESSION_MAXREP)
     res.outcome("len-%d" % min(len(exp), 9))
     if probs:
+        res.count("violating_walks")
         small = {
             "driver": driver,
             "cfg": case["cfg"],
@@ -237,7 +267,7 @@ def judge(res, case, driver, cfg, mask, base, method, mr, cap, exp, out, tr):
             "caps": [cap],
         }
         for p in probs:
-            res.violation("%s/%s/%s: %s" % (driver, cfg.version, method, _cls(p)), "MIB %s base %s %s(max_rep=%s, cap=%s): %s" % ([rb.oid_str(UNIVERSE[i]) for b, i in enumerate(case["idx"]) if mask >> b & 1], rb.oid_str(base), method, mr, cap, p), small)
+            res.violation("%s/%s/%s: %s" % (driver, cfg.version, method, _cls(p)), "MIB %s base %s %s(max_rep=%s, cap=%s): %s" % (("around arc %d" % case["idx"]["arc"]) if isinstance(case["idx"], dict) else [rb.oid_str(UNIVERSE[i]) for b, i in enumerate(case["idx"]) if mask >> b & 1], rb.oid_str(base), method, mr, cap, p), small)
     elif len(res["samples"]) < 2 and len(exp) >= 3:
         res.sample({"driver": driver, "cfg": cfg.name, "base": rb.oid_str(base), "method": method, "max_rep": mr, "cap": cap, "yielded": [g[0] for g in got], "requests": len(tr.requests)})
 
@@ -255,10 +285,13 @@ def _cls(t):
 def work(chunk):
     res = common.Result()
     for case in chunk:
-        if case["driver"] == "sync":
-            run_case_sync(case, res)
-        else:
-            run_case_async(case, res)
+        try:
+            if case["driver"] == "sync":
+                run_case_sync(case, res)
+            else:
+                run_case_async(case, res)
+        except TooManyViolations:
+            res["caps"].append("a block of walks was abandoned after 60 violating walks")
         res.count("cases")
     return res
 
@@ -307,6 +340,45 @@ def gen_cases(tier):
         }
 
 
+    # subtree roots ending in a sub-identifier at every base-128 width boundary (and inside each width)
+    arcs = sorted({x + d for k in (7, 14, 21, 28) for x in (1 << k,) for d in (-1, 0, 1)} | {0, 1, 1 << 20, 1500000, (1 << 21) - 2, 1 << 27, 1 << 31, (1 << 32) - 2, (1 << 32) - 1, 100000, 20000})
+    for driver in ("sync", "async"):
+        for cfg in (Cfg("v2c"), Cfg("v1")):
+            for v in arcs:
+                for method in ("getnext", "getbulk", "fetch"):
+                    if method == "getbulk" and cfg.version == "v1":
+                        continue
+                    yield {
+                        "driver": driver,
+                        "cfg": cfg.describe(),
+                        "idx": {"arc": v},
+                        "mask_lo": 0,
+                        "mask_hi": 1,
+                        "bases": [list(R + (1, v)), list(R + (1, v, 2)), list(R + (1,))],
+                        "method": method,
+                        "maxreps": [2, 10],
+                        "caps": [None] if cfg.version == "v1" else [None, 1],
+                    }
+    # every max_repetitions value across the INTEGER width boundaries, on a full MIB
+    mrs = list(range(1, 301)) + [32767, 32768, 65535, 65536, 8388607, 8388608, 2**31 - 1]
+    if thorough:
+        mrs = list(range(1, 1100)) + [x + d for x in (32768, 65536, 8388608) for d in (-2, -1, 0, 1)] + [2**31 - 2, 2**31 - 1]
+    full = (1 << len(QUICK_IDX)) - 1
+    for driver in ("sync", "async"):
+        for k in range(0, len(mrs), 60):
+            yield {
+                "driver": driver,
+                "cfg": Cfg("v2c").describe(),
+                "idx": QUICK_IDX,
+                "mask_lo": full,
+                "mask_hi": full + 1,
+                "bases": [list(BASES[1])],
+                "method": "getbulk",
+                "maxreps": mrs[k : k + 60],
+                "caps": [None, 10] if driver == "sync" else [10],
+            }
+
+
 def replay(case):
     common.prepare_stage()
     res = common.Result()
@@ -321,7 +393,7 @@ def run(tier):
     rec = common.Recorder(PROPERTY, tier, LEVEL, MODULE)
     rec.rule = (
         "every MIB that is a subset of the OID universe (arcs 1,2,127,128,129,200,16383,16384,2097152; a child below a leaf-like node; entries before "
-        "and after the subtree) x 10 bases (root, subtree, node with child, leaf, two multi-octet arcs, absent, last, '1.3', beyond) x {getnext; getbulk max_rep x agent cap; fetch} "
+        "and after the subtree) x 10 bases (root, subtree, node with child, leaf, two multi-octet arcs, absent, last, '1.3', beyond) x {getnext; getbulk max_rep x agent cap; fetch}; subtree roots ending in a sub-identifier at each base-128 width boundary; every max_repetitions 1..300 (thorough 1..1099) and the INTEGER width boundaries on a full MIB "
         "x {v1,v2c,v3} through sync and async iterators. Non-trivial = the expected result is non-empty. Quick: 2^10 MIBs (sync), 2^8 (async); thorough: 2^15."
     )
     rec.assume(
